@@ -17,7 +17,7 @@ def P(variants, quick_s, thorough_s, rule, probes=None, probes_thorough=None, as
     return d
 
 PROPS = {
-    "C10": P(["asan"], 30, 900,
+    "C10": P(["asan", "asanz"], 30, 900,
              "plans = 1..12 expansions per run sharing one variable store; value strings assembled from ordinary text, $NAME/${NAME}/$(NAME) over set/unset/empty variables, backslash escapes, "
              "tildes, single- and double-quoted sections, %put/%get (with defaults, nested up to depth 3), %version/%appname/%random/%exec/backquote, and don't-care constructs (unknown %word, lone $, "
              "unterminated ${ and %get(, trailing backslash), %dirscan over a simulated directory whose listing is modelled exactly (one run in ten makes the listing 20474..20486 or 41000 bytes long with 100..255-character names), "
@@ -25,7 +25,7 @@ PROPS = {
              "the argument is an exact CONFIG_BUFF-byte simulated block; oracle = reference expander written from the stated rules (value checked unless a don't-care construct occurs), NUL-termination and length, "
              "and a second execution of the whole plan under different heap and stack garbage that must give byte-identical results; distinct = distinct trace hash; non-trivial = >= 3 ops",
              probes=["value_checked", "value_dont_care", "dollar_mid_line", "backslash_at_end", "unterminated_brace", "nested_call_depth3", "result_hits_limit", "tilde_inside_quotes", "big_directory", "dirscan_listing_modelled", "dirscan_listing_over_limit", "cut_result_is_a_prefix"]),
-    "C11": P(["asan"], 30, 900,
+    "C11": P(["asan", "asanz"], 30, 900,
              "plans = 1..4 init/register/parse/free cycles; files are arbitrary byte strings or metacharacter-rich config text (NULs, lines of 20470..20482 and 41000 bytes, missing final newline, "
              "300 unmatched begin lines, empty file, bad magic, %include/%put/%get/%random/%dirscan (one run in ten over a directory whose listing is 20474..20486 or 41000 bytes long)/$VAR/~ and, in a quarter of the runs, %exec/backquote/%preproc), 0..200 contexts, 7..13 built-ins, "
              "spifconf_find_file with file/dir/pathlist strings up to 40000 bytes, spiftool_temp_file under a libc that creates with 0600 or 0666&~umask, direct expansions up to the 20 kB limit; "
@@ -33,7 +33,7 @@ PROPS = {
              "distinct = distinct trace hash; non-trivial = >= 3 ops",
              probes=["lifecycle_cycle_completed", "repeated_cycle_compared", "builtin_table_grew", "empty_file", "nul_in_file", "line_over_limit", "line_near_limit", "contexts_crossed_160",
                      "spawn_by_directive", "vars_defined", "second_cycle_uses_vars", "find_file_found", "path_component_over_limits", "temp_file_created", "big_directory"]),
-    "C09": P(["plain"], 30, 900,
+    "C09": P(["plain", "plainz"], 30, 900,
              "plans = a simulated file tree (root + include files, include chains up to 200 deep, files without magic, missing files, empty files, directories and files that open but cannot be read) over the line grammar "
              "comment | blank | begin NAME | end [junk] | %include F | text, nesting depth biased to 9..11, 19..21, 39..41, 79..81, 159..161, 200, 255, 0..200 registered contexts bound to 8 recording handlers, "
              "optional override of the null context, fopen failures and seeded read chunking from the parse op's fault script, parse with and without a search path; "
@@ -42,7 +42,7 @@ PROPS = {
              probes=["depth_crossed_20", "depth_crossed_40", "depth_crossed_80", "depth_crossed_160", "include_depth_crossed_10", "include_depth_crossed_20", "include_depth_crossed_40",
                      "include_depth_crossed_80", "include_depth_crossed_160", "unknown_context", "surplus_end", "eof_without_newline", "include_open_failed", "contexts_crossed_20",
                      "contexts_crossed_160", "unbalanced_input", "file_opened_but_unreadable", "empty_file"]),
-    "C14": P(["asan"], 30, 900,
+    "C14": P(["asan", "asanz"], 30, 900,
              "plans = 1..20 URLs per run (4/5 from component tuples over small alphabets with each optional part present/absent -- three quarters of those as text, one quarter assembled through the setters, unparsed and parsed again; 1/5 arbitrary byte strings), "
              "one simulated name-service table per run (7 bits: tcp/udp/ip protocols, http/ftp/dns services, a service whose protocol is missing), two stack paints per URL; "
              "oracle = reference splitter + port rule + canonical unparse + parse(unparse) round trip + identical components under both paints + allocator ledger; "
@@ -55,54 +55,54 @@ PROPS = {
              "for allocation-semantics equality; distinct = distinct trace hash; non-trivial = >= 3 ops",
              probes=["realloc_moved", "address_reused_after_free", "remove_from_middle", "realloc_to_zero", "realloc_of_null", "unknown_pointer_free", "filename_truncated",
                      "via_macros", "object_program_on_tracking_build", "tracking_switched_on"]),
-    "C17": P(["asan"], 30, 900,
+    "C17": P(["asan", "asanz"], 30, 900,
              "plans = 1..20 comparisons per run: pairs of generated well-formed versions (N(.N)*[word[N]], words incl. snap/pre/alpha/beta/rc), near-identical pairs, and wild strings of "
              "letter/digit/punctuation runs with lengths biased to 1, 126..129, 200, 1000; arguments are exact-size simulated blocks; each comparison runs under two stack paints, after "
              "another call, in both argument orders and against itself; reference comparator on well-formed pairs where the statement defines the order; distinct = distinct trace hash; non-trivial = >= 3 comparisons",
              probes=["wellformed_pair", "prerelease_word_pair", "suffix_vs_bare", "run_longer_than_127", "zero_padded_component"]),
-    "C05": P(["asan"], 30, 900,
+    "C05": P(["asan", "asanz"], 30, 900,
              "plans = seeded programs (4..30 ops) over a pool of 6 objects drawn from 16 kinds (str, ustr, mbuff, objpair, tok, url, regexp, list/vector/map x array/linked_list/dlinked_list; "
              "vobj or str elements) with make/mutate/query/dup/done+re-init/del; allocator policies incl. garbage fill, immediate address reuse and far-apart placement; "
              "after dup: distinct object, same class, type() equal, observer equal; after every op: no other object's observation changed (independence), and "
              "reflexive/antisymmetric/transitive/NULL-first comparison over all same-kind pairs of the pool; distinct = distinct trace hash; non-trivial = >= 3 ops",
              probes=["dup", "comp_pair", "empty_container", "list_with_holes", "pair_without_value", "tok_evaluated", "regexp_compiled", "done", "del"]),
-    "C06": P(["asan"], 30, 900,
+    "C06": P(["asan", "asanz"], 30, 900,
              "plans = seeded programs (4..60 ops) over the whole object API (16 kinds as in C05): create, fill, query (everything handed out is deleted by the caller), "
              "copy, done + re-init, property setters, re-evaluation, early deletion; the simulated allocator is the ledger: live set after deleting every object == live set before, "
              "no double free / foreign free / use after free (ASan + allocator), element objects deleted exactly once; distinct = distinct trace hash; non-trivial = >= 3 ops",
              probes=["dup", "done", "del", "map_value_overwritten", "list_with_holes", "tok_reevaluated", "property_setter", "removed_element_deleted_by_caller",
                      "key_value_pair_list_deleted", "empty_container", "regexp_recompiled"]),
-    "C02": P(["asan"], 30, 900,
+    "C02": P(["asan", "asanz"], 30, 900,
              "plans = seeded list histories (3..40 ops over 2 slots: append, prepend, insert_at over {-len-2..len+3}, remove, remove_at, get, index, find, contains, reverse, "
              "iterator beyond the end, dup, del; keys 0..5 so duplicates are common); the same plan runs on array, linked_list and dlinked_list; after every op every list is "
              "read back completely (structure walk, count, get(i) for i in [-len-1,len], fresh iterator, to_array) and compared with an ideal sequence with holes; "
              "distinct = distinct trace hash; non-trivial = >= 3 ops",
              probes=["insert_at_hole_created", "insert_at_len", "insert_at_refused", "remove_at_refused", "removed_last", "reverse_empty", "iterator_one_past_end",
                      "list_dup", "dup_of_empty_container", "dup_of_container_with_hole"]),
-    "C03": P(["plain"], 30, 900,
+    "C03": P(["plain", "plainz"], 30, 900,
              "plans = seeded map histories (3..40 ops over 2 slots: set, set via pair, remove, has_value, get_keys/values/pairs into NULL or an existing list, dup, del; "
              "key ranges 3 and 9 so overwrites and removals of min/max/only key are common; caller key/value objects mutated and deleted right after set); "
              "same plan on the three map classes; after every op: structure walk, count, iterator, get/has_key for every key of the universe; distinct = distinct trace hash; non-trivial = >= 3 ops",
              probes=["overwrite_existing", "remove_min", "remove_max", "remove_only", "caller_key_mutated_after_set", "set_via_pair", "get_list_into_existing", "dup_of_empty_container"]),
-    "C04": P(["plain"], 30, 900,
+    "C04": P(["plain", "plainz"], 30, 900,
              "plans = seeded vector histories (3..40 ops over 2 slots: insert, remove, find, contains with present/absent/below-min/above-max probes, dup, del; keys 0..7); "
              "same plan on the three vector classes; after every op: structure walk, sortedness, multiset equality by element identity, count, iterator, to_array; "
              "distinct = distinct trace hash; non-trivial = >= 3 ops",
              probes=["insert_duplicate_of_max", "insert_duplicate_of_only_element", "insert_below_min", "probe_below_min", "probe_above_max", "single_element_vector", "dup_of_empty_container"]),
-    "C07": P(["asan"], 30, 900,
+    "C07": P(["asan", "asanz"], 30, 900,
              "plans = seeded histories (4..40 ops, pool of 4 mbuff objects, direct functions or class-table macros) from a random constructor "
              "(empty, ptr, buff, FILE* seekable/streaming at zero/non-zero position with seeded chunking, descriptor regular-file/streaming with short reads, EINTR, EIO), "
              "all 256 byte values incl. NUL, sizes 0..13000 around the 4096-byte chunk; every object compared with an ideal byte sequence after every step; "
              "distinct = distinct trace hash; non-trivial = >= 3 ops",
              probes=["append_on_empty", "fp_seekable", "fp_streaming", "fp_seekable_nonzero_pos", "fd_regular_file", "fd_streaming", "fd_multi_chunk",
                      "stream_exactly_4096", "refused_op", "absent_byte_search", "cmp_different_lengths", "trim_all_whitespace", "done"]),
-    "C01": P(["asan"], 30, 900,
+    "C01": P(["asan", "asanz"], 30, 900,
              "plans = seeded histories (4..40 ops, pool of 4 objects, str or ustr, direct functions or class-table macros) starting from a random constructor "
              "(empty, ptr, buff, num, FILE* with seeded chunking, descriptor with short reads/EINTR/EAGAIN/EIO), texts from empty to 16 KB around the 4096-byte chunk; "
              "every object is compared with an ideal character sequence after every step; distinct = distinct trace hash (includes allocator digest); non-trivial = >= 3 ops",
              probes=["append_on_empty", "fp_line_crosses_4096", "fd_multi_chunk", "refused_op", "done", "query_not_found", "trim_all_whitespace",
                      "mutator_on_empty_state", "dup_of_empty_str"]),
-    "C19": P(["plain"], 30, 900,
+    "C19": P(["plain", "plainz"], 30, 900,
              "plans = fault-script sweep (all scripts over {FULL,SHORT,EINTR}^<=3 on the first reads and {FULL,SHORT,EINTR,EAGAIN}^<=3 on the first writes x 4 payload sizes) "
              "followed by seeded lifecycles of 1 server + 1..3 client tasks with per-call fault scripts (socket/bind/listen/connect/accept/read/write/close outcomes), listeners on taken addresses, open retries and seeded schedules; "
              "distinct = distinct trace hash (every simulated call outcome and scheduling decision is hashed); non-trivial = plan has >= 3 operations",
